@@ -1,3 +1,4 @@
+import os
 from abc import ABC, abstractmethod
 from collections.abc import Iterable
 from typing import Generic, TypeVar
@@ -6,6 +7,22 @@ from guppylang_internals.cfg.bb import BB, VariableStats, VId
 
 # Type variable for the lattice domain
 T = TypeVar("T")
+
+# Verification hook (off unless CQCL_GUPPYLANG_VERIF=1 *and* a harness installs a
+# callable here): lets a test harness choose the order in which the worklists below
+# pop blocks. The callable receives the initial `set` of blocks and must return a
+# set-like object supporting `pop`, `update` and `len`.
+_VERIF_SCHED = None
+if os.environ.get("CQCL_GUPPYLANG_VERIF") != "1":
+
+    def _verif_queue(queue):  # type: ignore[no-untyped-def]
+        return queue
+
+else:
+
+    def _verif_queue(queue):  # type: ignore[no-untyped-def]
+        return queue if _VERIF_SCHED is None else _VERIF_SCHED(queue)
+
 
 # Analysis result is a mapping from basic blocks to lattice values
 Result = dict[BB, T]
@@ -56,6 +73,7 @@ class ForwardAnalysis(Generic[T], Analysis[T], ABC):
         vals_before = {bb: self.initial() for bb in bbs}  # return value
         vals_after = {bb: self.apply_bb(vals_before[bb], bb) for bb in bbs}  # cache
         queue = set(bbs)
+        queue = _verif_queue(queue)
         while len(queue) > 0:
             bb = queue.pop()
             preds = (
@@ -89,6 +107,7 @@ class BackwardAnalysis(Generic[T], Analysis[T], ABC):
         """
         vals_before = {bb: self.initial() for bb in bbs}
         queue = set(bbs)
+        queue = _verif_queue(queue)
         while len(queue) > 0:
             bb = queue.pop()
             succs = (
